@@ -704,6 +704,10 @@ def _ring_of_call(name, mod, args, kwargs):
 def call_ext(interp, ext, node, args, kwargs, st):
     out = _call_ext(interp, ext, node, args, kwargs, st)
     cext = canonical(ext)
+    if isinstance(out, Val) and out.kind in ("arr", "unknown") and cext in ("numpy.array", "numpy.asarray") and out.items is None and args \
+            and args[0].kind in ("list", "tuple") and args[0].items is not None and 0 < len(args[0].items) <= 6 and len(args) == 1 \
+            and all(i_ is not None and i_.kind in ("float", "int") and i_.sym is not None for i_ in args[0].items) and set(kwargs) <= {"dtype"}:
+        out.items = tuple(args[0].items)            # an array built from a display of scalars: component by component (as np.square([..]))
     if isinstance(out, Val) and out.kind in ("arr", "unknown") and (cext.startswith("numpy.")):
         try:
             m_, _, n_ = cext.rpartition(".")
